@@ -425,6 +425,11 @@ theorem isMatching_unfold (h : Setup ctx root req segs slash) :
   obtain ⟨c, hu, hc⟩ := h.url
   exact ⟨c, hu, hc, noParent_target segs h.good slash, by simpa using h.notRoot⟩
 
+/-- the entry is a regular file -/
+def Kind.isFile : Kind → Bool
+  | .file _ => true
+  | _ => false
+
 theorem isMatching_file (h : Setup ctx root req segs false) (b : Bytes)
     (hK : look ctx.tree root segs = .file b) : isMatching ctx req = .ok true := by
   obtain ⟨c, hu, hc, hnp, hnr⟩ := isMatching_unfold h
@@ -442,10 +447,10 @@ theorem isMatching_file_slash (h : Setup ctx root req segs true) (b : Bytes)
   have hmd := metadata_target _ _ _ h.served segs true h.good.1 h.good.plain
   simp only [hK] at hmd
   have hh := md_html_slash h (by rw [hK]; simp)
-  simp [hmd, canOpen, endsWith_target_slash, hh]
+  simp [hmd, canOpen, isRegularFile, endsWith_target_slash, hh]
 
 theorem isMatching_dir (h : Setup ctx root req segs slash) (hK : look ctx.tree root segs = .dir) :
-    isMatching ctx req = .ok (decide (look ctx.tree root (segs ++ [indexHtml]) ≠ .missing)) := by
+    isMatching ctx req = .ok (look ctx.tree root (segs ++ [indexHtml])).isFile := by
   obtain ⟨c, hu, hc, hnp, hnr⟩ := isMatching_unfold h
   unfold isMatching
   simp only [h.isGet, hu, hc, hnp, hnr]
@@ -453,8 +458,8 @@ theorem isMatching_dir (h : Setup ctx root req segs slash) (hK : look ctx.tree r
   simp only [hK] at hmd
   obtain ⟨di, hdi, hpath, _⟩ := idx_path h Gen.Sites.staticMatchLastUnwrap
   have hmi := md_index h
-  simp only [List.append_assoc, hmd, hdi, hpath, canOpen, hmi]
-  cases look ctx.tree root (segs ++ [indexHtml]) <;> simp
+  simp only [List.append_assoc, hmd, hdi, hpath, canOpen, isRegularFile, hmi]
+  cases look ctx.tree root (segs ++ [indexHtml]) <;> simp [Kind.isFile]
 
 theorem isMatching_missing_slash (h : Setup ctx root req segs true)
     (hK : look ctx.tree root segs = .missing) : isMatching ctx req = .ok false := by
@@ -464,12 +469,12 @@ theorem isMatching_missing_slash (h : Setup ctx root req segs true)
   have hmd := metadata_target _ _ _ h.served segs true h.good.1 h.good.plain
   simp only [hK] at hmd
   have hh := md_html_slash h (by rw [hK]; simp)
-  simp [hmd, canOpen, endsWith_target_slash, hh]
+  simp [hmd, canOpen, isRegularFile, endsWith_target_slash, hh]
 
 theorem isMatching_missing (h : Setup ctx root req segs false)
     (hK : look ctx.tree root segs = .missing) :
     isMatching ctx req =
-      .ok (!lastEndsHtml segs && decide (look ctx.tree root (addHtml segs) ≠ .missing)) := by
+      .ok (!lastEndsHtml segs && (look ctx.tree root (addHtml segs)).isFile) := by
   obtain ⟨c, hu, hc, hnp, hnr⟩ := isMatching_unfold h
   unfold isMatching
   simp only [h.isGet, hu, hc, hnp, hnr]
@@ -479,8 +484,8 @@ theorem isMatching_missing (h : Setup ctx root req segs false)
   have he : endsWith (ctx.cwd ++ target segs false) dotHtml = lastEndsHtml segs := by
     obtain ⟨init, last, rfl⟩ := exists_snoc segs h.good.1
     rw [endsWith_target, lastEndsHtml_snoc]
-  simp only [List.append_assoc, hmd, canOpen, hh, he]
-  cases lastEndsHtml segs <;> cases look ctx.tree root (addHtml segs) <;> simp
+  simp only [List.append_assoc, hmd, canOpen, isRegularFile, hh, he]
+  cases lastEndsHtml segs <;> cases look ctx.tree root (addHtml segs) <;> simp [Kind.isFile]
 
 end
 
